@@ -1,6 +1,8 @@
 package kit
 
 import (
+	"strings"
+	"sync"
 	"github.com/relab/hotstuff"
 	"github.com/relab/hotstuff/core"
 	"github.com/relab/hotstuff/security/crypto"
@@ -86,13 +88,29 @@ func BLSValidElsewhere(cfg *core.RuntimeConfig, sig hotstuff.QuorumSignature, ms
 	return true, a1 || a2 || a3
 }
 
-// BLSFalseNegative: the repository rejected (err != nil) a signature that the other arrangements accept.
+// quirkBudget bounds how many rejections one process may attribute to the finding. The library fails for about one input in
+// 10^5; a change to the repository's BLS code that rejects valid signatures wholesale would otherwise hide behind the finding.
+var (
+	quirkMu     sync.Mutex
+	quirkHits   int
+	quirkBudget = 40
+)
+
+func withinQuirkBudget() bool {
+	quirkMu.Lock()
+	defer quirkMu.Unlock()
+	quirkHits++
+	return quirkHits <= quirkBudget
+}
+
+// BLSFalseNegative: the repository rejected (err != nil) a signature that the other arrangements accept. err is the rejection
+// that was OBSERVED (batch verification adds its pairs in map order, so a second call may well accept the same input).
 func BLSFalseNegative(cfg *core.RuntimeConfig, sig hotstuff.QuorumSignature, msgOf func(hotstuff.ID) []byte, err error) bool {
-	if err == nil {
+	if err == nil || !strings.Contains(err.Error(), "bls12: failed to verify") {
 		return false
 	}
 	isBLS, valid := BLSValidElsewhere(cfg, sig, msgOf)
-	return isBLS && valid
+	return isBLS && valid && withinQuirkBudget()
 }
 
 // KnownBLS is the fingerprint of the finding in known_findings.json.
@@ -109,9 +127,13 @@ func QuirkSig(cfg *core.RuntimeConfig, base crypto.Base, sig hotstuff.QuorumSign
 	return BLSFalseNegative(cfg, sig, func(hotstuff.ID) []byte { return msg }, base.Verify(sig, msg))
 }
 
-// QuirkQC / QuirkTC / QuirkAgg: the member's scheme rejects the certificate's signature (or, for an aggregate certificate, the
-// signature of one of the attested certificates) although the other arrangements accept it.
-func QuirkQC(m *Member, qc hotstuff.QuorumCert) bool {
+func blsErr(err error) bool { return err != nil && strings.Contains(err.Error(), "bls12: failed to verify") }
+
+// QuirkQC / QuirkTC / QuirkAgg decide whether an OBSERVED rejection err of a certificate by member m is the known false
+// negative: the error is the pairing check's, and the certificate's signature (for an aggregate certificate also the signatures
+// of the attested certificates) satisfies the verification equation in the other arrangements. With err == nil they verify the
+// signature themselves first (single-message verification is deterministic; batch verification is not, see BLSFalseNegative).
+func QuirkQC(m *Member, qc hotstuff.QuorumCert, err ...error) bool {
 	if qc.Signature() == nil {
 		return false
 	}
@@ -119,14 +141,24 @@ func QuirkQC(m *Member, qc hotstuff.QuorumCert) bool {
 	if !ok {
 		return false
 	}
+	if len(err) > 0 {
+		return BLSFalseNegative(m.Cfg, qc.Signature(), func(hotstuff.ID) []byte { return blk.ToBytes() }, err[0])
+	}
 	return QuirkSig(m.Cfg, m.Base, qc.Signature(), blk.ToBytes())
 }
 
-func QuirkTC(m *Member, tc hotstuff.TimeoutCert) bool {
+func QuirkTC(m *Member, tc hotstuff.TimeoutCert, err ...error) bool {
+	if tc.Signature() == nil {
+		return false
+	}
+	if len(err) > 0 {
+		msg := tc.View().ToBytes()
+		return BLSFalseNegative(m.Cfg, tc.Signature(), func(hotstuff.ID) []byte { return msg }, err[0])
+	}
 	return QuirkSig(m.Cfg, m.Base, tc.Signature(), tc.View().ToBytes())
 }
 
-func QuirkAgg(m *Member, agg hotstuff.AggregateQC) bool {
+func QuirkAgg(m *Member, agg hotstuff.AggregateQC, err ...error) bool {
 	if agg.Sig() == nil {
 		return false
 	}
@@ -136,6 +168,29 @@ func QuirkAgg(m *Member, agg hotstuff.AggregateQC) bool {
 	batch := map[hotstuff.ID][]byte{}
 	for id, qc := range agg.QCs() {
 		batch[id] = hotstuff.TimeoutMsg{ID: id, View: agg.View(), SyncInfo: hotstuff.NewSyncInfoWith(qc)}.ToBytes()
+	}
+	if len(err) > 0 {
+		// the observed rejection may stem from the aggregate signature or from one of the attested certificates: the finding
+		// explains it only if ALL of them are valid elsewhere
+		if !blsErr(err[0]) {
+			return false
+		}
+		if _, valid := BLSValidElsewhere(m.Cfg, agg.Sig(), func(id hotstuff.ID) []byte { return batch[id] }); !valid {
+			return false
+		}
+		for _, qc := range agg.QCs() {
+			if qc.Signature() == nil {
+				continue
+			}
+			blk, ok := m.BC.LocalGet(qc.BlockHash())
+			if !ok {
+				return false
+			}
+			if _, valid := BLSValidElsewhere(m.Cfg, qc.Signature(), func(hotstuff.ID) []byte { return blk.ToBytes() }); !valid {
+				return false
+			}
+		}
+		return withinQuirkBudget()
 	}
 	if BLSFalseNegative(m.Cfg, agg.Sig(), func(id hotstuff.ID) []byte { return batch[id] }, m.Base.BatchVerify(agg.Sig(), batch)) {
 		return true
